@@ -27,6 +27,7 @@ struct RustSide {
     kp: KeyPair,
     token0: Biscuit,
     token: Biscuit,
+    sealed: Biscuit,
 }
 
 fn rust_side(alg: &str, balg: &str) -> RustSide {
@@ -37,7 +38,19 @@ fn rust_side(alg: &str, balg: &str) -> RustSide {
         .build_with_rng(&kp, SymbolTable::default(), &mut StdRng::from_seed(SEED2)).unwrap();
     let kp2 = KeyPair::new_with_rng(ralg(balg), &mut StdRng::from_seed(SEED3));
     let token = token0.append_with_keypair(&kp2, BlockBuilder::new().check("check if right(\"file1\")").unwrap()).unwrap();
-    RustSide { kp, token0, token }
+    let sealed = token.seal().unwrap();
+    RustSide { kp, token0, token, sealed }
+}
+
+/// the C API's kind for an error of the Rust API (the cases a scenario can meet)
+fn kind_of(e: &biscuit_auth::error::Token) -> u32 {
+    use biscuit_auth::error::Token;
+    (match e {
+        Token::AlreadySealed => c::ErrorKind::AlreadySealed,
+        Token::AppendOnSealed => c::ErrorKind::AppendOnSealed,
+        Token::Format(biscuit_auth::error::Format::InvalidBlockId(_)) => c::ErrorKind::FormatInvalidBlockId,
+        _ => c::ErrorKind::InternalError,
+    }) as u32
 }
 
 unsafe fn err_kind() -> u32 {
@@ -68,17 +81,30 @@ pub fn cmd_child(arg: &str) {
         assert!(c::block_builder_add_check(Some(&mut blk), chk.as_ptr()));
         let kp2 = c::key_pair_new(SEED3.as_ptr(), 32, calg(balg)).expect("kp2");
         let token = c::biscuit_append_block(Some(&token0), Some(&blk), Some(&kp2)).expect("append");
+        // a sealed token as a C handle: the sealed serialization read back
+        let sealed_bytes = rs.sealed.to_vec().unwrap();
+        let stoken = c::biscuit_from(sealed_bytes.as_ptr(), sealed_bytes.len(), Some(&*pubk)).expect("biscuit_from(sealed)");
         println!("{}", json!({"setup": "ok", "err": err_kind()}));
         for call in sc["calls"].as_array().unwrap() {
             let name = call["name"].as_str().unwrap();
-            let live = call["handle"] == "live";
+            let on_sealed = call["handle"] == "sealed";
+            let live = call["handle"] == "live" || on_sealed;
             let idx = call["idx"].as_u64().unwrap() as u32;
-            let th = if live { Some(&*token) } else { None };
+            let th = if on_sealed { Some(&*stoken) } else if live { Some(&*token) } else { None };
+            // the Rust object the handle stands for
+            let rt: &Biscuit = if on_sealed { &rs.sealed } else { &rs.token };
             let mut problems: Vec<String> = Vec::new();
+            // what the Rust operation reports when it fails, as the C API's error kind
+            let mut want_kind: Option<u32> = None;
             let out: &str = match name {
                 "serialize" | "serialize_sealed" => {
                     let sealed = name == "serialize_sealed";
-                    let want = if sealed { rs.token.seal().unwrap().to_vec().unwrap() } else { rs.token.to_vec().unwrap() };
+                    let want = if sealed {
+                        match rt.seal() {
+                            Ok(t) => t.to_vec().unwrap(),
+                            Err(e) => { want_kind = Some(kind_of(&e)); Vec::new() }
+                        }
+                    } else { rt.to_vec().unwrap() };
                     let size = if sealed { c::biscuit_sealed_size(th) } else { c::biscuit_serialized_size(th) };
                     // the caller allocates exactly what was announced; canaries around it
                     let mut buf = vec![CANARY; size + 64];
@@ -93,14 +119,14 @@ pub fn cmd_child(arg: &str) {
                 }
                 "block_count" => {
                     let n = c::biscuit_block_count(th);
-                    if live && n != rs.token.block_count() { problems.push(format!("block count {n}")); }
+                    if live && n != rt.block_count() { problems.push(format!("block count {n}")); }
                     if n > 0 { "value" } else { "error" }
                 }
                 "block_context" => {
                     let before = err_kind();
                     let p = c::biscuit_block_context(th, idx);
                     let got = cstr(p);
-                    let want = rs.token.context().get(idx as usize).cloned();
+                    let want = rt.context().get(idx as usize).cloned();
                     match (&want, live) {
                         (Some(w), true) => { if &got != w { problems.push(format!("context {:?}, Rust gives {:?}", got, w)); } if got.is_some() || err_kind() == before { "value" } else { "error" } }
                         _ => if got.is_none() { "error" } else { "value" },
@@ -109,13 +135,13 @@ pub fn cmd_child(arg: &str) {
                 "print_block_source" => {
                     let p = c::biscuit_print_block_source(th, idx);
                     let got = cstr(p);
-                    let want = if live { rs.token.print_block_source(idx as usize).ok() } else { None };
+                    let want = if live { rt.print_block_source(idx as usize).ok() } else { None };
                     if live && got != want { problems.push(format!("source {:?}, Rust gives {:?}", got, want)); }
                     if got.is_some() { "value" } else { "error" }
                 }
                 "print" => {
                     let got = cstr(c::biscuit_print(th));
-                    if live && got.as_deref() != Some(&rs.token.print()) { problems.push("print differs from Rust".to_string()); }
+                    if live && got.as_deref() != Some(&rt.print()) { problems.push("print differs from Rust".to_string()); }
                     if got.is_some() { "value" } else { "error" }
                 }
                 "authorize" => {
@@ -123,11 +149,11 @@ pub fn cmd_child(arg: &str) {
                         let mut ab = c::authorizer_builder().expect("authorizer_builder");
                         let pol = CString::new("allow if true").unwrap();
                         assert!(c::authorizer_builder_add_policy(Some(&mut ab), pol.as_ptr()));
-                        match c::authorizer_builder_build(Some(ab), &token) {
+                        match c::authorizer_builder_build(Some(ab), th.unwrap()) {
                             Some(mut a) => {
                                 let r = c::authorizer_authorize(Some(&mut a));
                                 let want = biscuit_auth::builder::AuthorizerBuilder::new().policy("allow if true").unwrap()
-                                    .limits(crate::auth::big_limits()).build(&rs.token).unwrap().authorize().is_ok();
+                                    .limits(crate::auth::big_limits()).build(rt).unwrap().authorize().is_ok();
                                 // (default limits of 1 ms in the C API may time out on a loaded machine: only a wrong success is a mismatch)
                                 if r && !want { problems.push("authorize succeeded, Rust refuses".to_string()); }
                                 "value"
@@ -186,10 +212,12 @@ pub fn cmd_child(arg: &str) {
                     let mut b3 = c::create_block();
                     let f3 = CString::new("extra(1)").unwrap();
                     assert!(c::block_builder_add_fact(Some(&mut b3), f3.as_ptr()));
+                    let kp2r = KeyPair::new_with_rng(ralg(balg), &mut StdRng::from_seed(SEED3));
+                    let rust = rt.append_with_keypair(&kp2r, BlockBuilder::new().fact("extra(1)").unwrap());
+                    if let Err(e) = &rust { want_kind = Some(kind_of(e)); }
                     match c::biscuit_append_block(th, Some(&b3), Some(&kp2)) {
                         Some(t) => {
-                            let kp2r = KeyPair::new_with_rng(ralg(balg), &mut StdRng::from_seed(SEED3));
-                            let want = rs.token.append_with_keypair(&kp2r, BlockBuilder::new().fact("extra(1)").unwrap()).unwrap().to_vec().unwrap();
+                            let want = match rust { Ok(t) => t.to_vec().unwrap(), Err(_) => { problems.push("append succeeded, the Rust operation fails".to_string()); Vec::new() } };
                             let size = c::biscuit_serialized_size(Some(&t));
                             let mut buf = vec![0u8; size];
                             let n = c::biscuit_serialize(Some(&t), buf.as_mut_ptr());
@@ -217,6 +245,10 @@ pub fn cmd_child(arg: &str) {
             };
             let kind = err_kind();
             let msg = cstr(c::error_message());
+            // error details: the kind in the channel is the kind of the error the Rust operation returns
+            if let (Some(w), true) = (want_kind, live) {
+                if kind != w { problems.push(format!("the Rust operation fails with error kind {w}, the error channel holds {kind}")); }
+            }
             // the C API cannot change the default 1 ms time limit: a Timeout under load is not a finding
             let timeout = name == "authorize" && (kind == c::ErrorKind::Timeout as u32 || msg.as_deref().map(|m| m.contains("imeout")).unwrap_or(false));
             println!("{}", json!({"name": name, "out": out, "err_kind": kind, "err_msg": msg, "problems": problems, "timeout": timeout}));
